@@ -43,7 +43,8 @@ type result struct {
 }
 
 func (d *Driver) getServerCapabilities() ([]byte, error) {
-	cr := make(chan *result)
+	// room for the one result the reader hands over: it never has to wait for us
+	cr := make(chan *result, 1)
 
 	ctx, cancel := context.WithTimeout(
 		context.Background(),
@@ -53,22 +54,9 @@ func (d *Driver) getServerCapabilities() ([]byte, error) {
 	defer cancel()
 
 	go func() {
-		defer close(cr)
-
 		b, err := d.Channel.ReadUntilPrompt(ctx)
-		if err != nil {
-			cr <- &result{b: b, err: err}
-		}
 
-		if ctx.Err() != nil {
-			// timer expired, we're already done, nobody will be listening for our send anyway
-			return
-		}
-
-		cr <- &result{
-			b:   b,
-			err: nil,
-		}
+		cr <- &result{b: b, err: err}
 	}()
 
 	r := <-cr
